@@ -87,6 +87,14 @@ def run(ctx, ck) -> None:
                 o.construct = o.construct.replace('[moveaxis transpose]', f'[{owner.name}]')
                 ck.obs.append(o)
             continue
+        if not ok and owner.name in ('CompositionOperator', 'AdditionOperator'):
+            # written another way: decided by evaluating the transpose of products / sums of opaque operators
+            verdict = _composite_transpose_by_evaluation(ctx, owner)
+            if verdict is not None:
+                ncases, problems = verdict
+                ck.expect('T2', not problems, fn, f'on {ncases} products / sums of opaque operators (flat and nested, with lazy transposes among the factors) the transpose holds the transposed factors in reverse order (sums: term by term)',
+                          f'{problems[0] if problems else ""} ({len(problems)} of {ncases})', instance=owner.name, semantic=True)
+                continue
         ck.expect('T2', ok, fn, why, f'{owner.name}.transpose is not the adjoint construction of its class: {why}', instance=owner.name)
 
     # ------------------------------------------------------------------ T4 lazy duals
@@ -288,6 +296,89 @@ SCHEMAS = {
     'QURotationOperator': _dual_ctor('QURotationTransposeOperator'),
     'ToastObservationMatrixOperator': _dual_ctor('ToastObservationMatrixTransposeOperator'),
 }
+
+
+def _composite_transpose_by_evaluation(ctx, owner):
+    """(number of cases, problems) or None when not decided.  `X.T` is evaluated (sa/axinterp.py) for products and sums of
+    opaque operators A, B, C and their lazy transposes, flat and nested: (F1 F2 ... Fn)^T must hold F_n^T ... F_1^T (a nested
+    product contributes its factors in reverse as well), (S1 + S2)^T the transposed terms, with (X^T)^T = X."""
+    from ..axinterp import Interp, Obj, Raised, StructLeaf, Undecided, UNK
+
+    world, table = ctx.world, ctx.table
+    comp, add, tr = table.by_name('CompositionOperator'), table.by_name('AdditionOperator'), table.by_name('TransposeOperator')
+    base = table.get(f'{CORE}.AbstractLinearOperator')
+    # an operator class whose transpose is the generic lazy one stands for "any operator"
+    generic = next((k for k in table.operators() if k.name == 'IndexOperator' and (r_ := table.resolve(k, 'transpose')) is not None and r_.owner is base), None)
+    if None in (generic, comp, add, tr):
+        return None
+    S = StructLeaf(((frozenset({'s'}), 3),))
+    A, B, C = (Obj(generic, {'_in_structure': S, '__out__': S, 'name': n}) for n in 'ABC')
+    tB = Obj(tr, {'operator': B, '__out__': S})
+    out_fn = base.own.get('out_structure')
+
+    def letters(o, transposed=False):
+        """The product as a list of (operator, transposed?) read left to right, or None."""
+        if not isinstance(o, Obj):
+            return None
+        if o.cls is comp:
+            ops = o.attrs.get('operands')
+            if not isinstance(ops, (list, tuple)):
+                return None
+            parts = [letters(x, transposed) for x in (reversed(ops) if transposed else ops)]
+            return None if any(p_ is None for p_ in parts) else [l for p_ in parts for l in p_]
+        if o.cls is tr and isinstance(o.attrs.get('operator'), Obj):
+            return letters(o.attrs['operator'], not transposed)
+        if o.cls is generic:
+            return [(o.attrs['name'], transposed)]
+        return None
+
+    def cmp_(*ops):
+        return Obj(comp, {'operands': list(ops), '__out__': S})
+
+    problems: list[str] = []
+    if owner is comp:
+        cases = {'A @ B': cmp_(A, B), 'A @ B @ C': cmp_(A, B, C), 'A @ (B @ C)': cmp_(A, cmp_(B, C)), '(A @ B) @ C': cmp_(cmp_(A, B), C), 'A @ B.T @ C': cmp_(A, tB, C),
+                 '(A @ B.T) @ (C @ A)': cmp_(cmp_(A, tB), cmp_(C, A))}
+    else:
+        cases = {'A + B': Obj(add, {'operands': [A, B], '__out__': S}), 'A + B.T + C': Obj(add, {'operands': [A, tB, C], '__out__': S}), "{'x': A, 'y': B @ C}": Obj(add, {'operands': {'x': A, 'y': cmp_(B, C)}, '__out__': S})}
+    for text, op in cases.items():
+        it = Interp(world, table, budget=40_000)
+        it.constructible = {k.qual for k in table.operators()}
+        if isinstance(out_fn, ast.FunctionDef):
+            it.summaries[id(out_fn)] = lambda args, kwargs: args[0].attrs.get('__out__', UNK)
+        try:
+            res = it.get_attr(op, 'T', None)
+        except Raised as exc:
+            problems.append(f'({text}).T raises {exc.name}')
+            continue
+        except Undecided:
+            return None
+        if it.degraded or res is UNK:
+            return None
+        if owner is comp:
+            got, want = letters(res), letters(op, True)
+            if got is None:
+                return None
+            if got != want:
+                show_ = lambda w: ' '.join(n + ('^T' if t_ else '') for n, t_ in w)  # noqa: E731
+                problems.append(f'({text}).T is the product {show_(got)}, the adjoint is {show_(want)}')
+        else:
+            if not (isinstance(res, Obj) and res.cls is add):
+                return None
+            def terms(o):
+                v = o.attrs.get('operands')
+                return [v[k] for k in sorted(v)] if isinstance(v, dict) else list(v) if isinstance(v, (list, tuple)) else None
+            g, w = terms(res), terms(op)
+            if g is None or w is None or len(g) != len(w):
+                problems.append(f'({text}).T does not hold one transposed term per term')
+                continue
+            for x, y in zip(g, w):
+                lx_, ly_ = letters(x), letters(y, True)
+                if lx_ is None:
+                    return None
+                if lx_ != ly_:
+                    problems.append(f'({text}).T: a term is not the transpose of the corresponding term')
+    return len(cases), problems
 
 
 def controls(world: World) -> list[Control]:
